@@ -42,7 +42,13 @@ warnings.simplefilter("ignore")
 
 ID = "C10"
 AUDIT_IMPORTS = ["HypatiaProofs.Properties.C10"]
-THEOREMS = ["Hyp.Cqe." + t for t in ("c10_single_expression",)]
+THEOREMS = ["Hyp.Cqe." + t for t in (
+    "c10_single_expression", "c10_spelling_parses", "c10_flat_trees_have_spellings", "c10_unknown_index_rejected",
+    "c10_recogniser", "c10_only_spellings_parse_to_queries", "c10_walk_iff_spelling", "c10_spec_answer",
+    "c10_outside_language_rejected", "c10_outside_language_partial", "c10_d11_top_level", "c10_d11_not_value",
+    "c10_d11_query_as_value", "c10_subst", "c10_subst_error_iff", "c10_leaf_resolution",
+    "c10_constant_values_unchanged", "c10_range_subst_partial", "c10_d17_witness", "c10_eq_is_structural",
+    "c10_structEq_refl", "c10_eq_only_on_fragment", "c10_parsed_equals_hand_built")]
 CASES = {"quick": 2400, "thorough": 120000}
 BUDGET_S = {"quick": 40, "thorough": 700}
 BATCH = 40
